@@ -26,7 +26,7 @@ CONFIG = {
 
 def cfg_fn(rng, ctx):
     depth = int(rng.choice([1, 2, 2])) if ctx.quick() else int(rng.choice([1, 2, 2, 3]))
-    return gen.Cfg(depth=depth, root="Static" if rng.random() < 0.5 else None)
+    return gen.Cfg(depth=depth, root="Static" if rng.random() < 0.5 else None, tuple_param=0.4)
 
 
 def nontrivial(case, hist):
